@@ -117,9 +117,11 @@ def mertonJump (init mu sigma lam jm js dt : α) (nj zj z : List α) : List α :
   let cj := cumsumL jump
   List.zipWith (fun (i : α) bc => init * exp (driftRate * i + sigma * bc.1 + bc.2)) (arangeL n) (List.zip brown cj)
 
-/-- `generate_kou_jump`: `jumps[i]` = the log-jump sizes that count at step i+1 (already cut to the
-Poisson count and signed) -/
-def kouJump (init sigma mu lam etaUp etaDown pUp dt : α) (jumps : List (List α)) (z : List α) : List α :=
+/-- `generate_kou_jump`, the product form used up to the fix: commit: the jump factor of a step is
+the product of `exp` of its log-jumps, aggregated by `cumprod` and multiplied onto the diffusion
+part.  `jumps[i]` = the log-jump sizes that count at step i+1 (already cut to the Poisson count and
+signed) -/
+def kouJumpProd (init sigma mu lam etaUp etaDown pUp dt : α) (jumps : List (List α)) (z : List α) : List α :=
   let n := z.length
   let returns := zeroFirst (z.map (fun zi => zi * sqrt dt * sigma))
   let expJump := (1 : α) :: jumps.map (fun js => js.foldl (fun acc j => acc * exp j) 1)
@@ -128,6 +130,20 @@ def kouJump (init sigma mu lam etaUp etaDown pUp dt : α) (jumps : List (List α
   let cr := cumsumL returns
   List.zipWith (fun (i : α) ca =>
     exp ((mu - lam * m) * (dt * i) + ca.1 - sigma * sigma * (dt * i) / 2) * init * ca.2) (arangeL n) (List.zip cr agg)
+
+/-- `generate_kou_jump` (after the `fix:` commit: jumps accumulated in log space).  `jumps[i]` = the
+log-jump sizes that count at step i+1 (already cut to the Poisson count and signed).
+`log_jump_step = 0 :: (sum of the step's log-jumps)`, `log_jump_agg = cumsum(log_jump_step)`,
+`prices = exp((mu - lam·m)·t + cumsum(returns) - sigma²·t/2 + log_jump_agg) * init` -/
+def kouJump (init sigma mu lam etaUp etaDown pUp dt : α) (jumps : List (List α)) (z : List α) : List α :=
+  let n := z.length
+  let returns := zeroFirst (z.map (fun zi => zi * sqrt dt * sigma))
+  let logJumpStep := (0 : α) :: jumps.map (fun js => js.foldl (fun acc j => acc + j) 0)
+  let logJumpAgg := cumsumL logJumpStep
+  let m := (1 - pUp) * (etaDown / (etaDown + 1)) + pUp * (etaUp / (etaUp - 1)) - 1
+  let cr := cumsumL returns
+  List.zipWith (fun (i : α) ca =>
+    exp ((mu - lam * m) * (dt * i) + ca.1 - sigma * sigma * (dt * i) / 2 + ca.2) * init) (arangeL n) (List.zip cr logJumpAgg)
 
 /-- `generate_local_volatility_process`: Euler step; returns (spot, volatility) -/
 def localVol (sigmaFn : α → α → α) (init dt : α) (z : List α) : List α × List α :=
